@@ -3,8 +3,11 @@ package prop
 import (
 	"bytes"
 	"fmt"
+	"io"
 	"math/rand"
+	"runtime"
 	"sort"
+	"sync"
 
 	"github.com/biogo/hts/bam"
 	"github.com/biogo/hts/bgzf"
@@ -23,6 +26,7 @@ func init() {
 		Level: "exploration",
 		Rule: "built cases: every index the C04 generator builds (BAI, tabix with random Format/columns/meta/skip, CSI version 1 and 2 with random auxiliary bytes and the C04 geometries). W=write, R=read: W(R(W(x))) == W(x) byte for byte; Chunks on the C04 query set gives identical chunk lists on x and R(W(x)); NumRefs, ReferenceStats(i) and Unmapped() identical on both and equal to the true counts kept by the generator (mapped = placed and mapped, unmapped = placed with the unmapped flag, unplaced count, span = Begin of the first to End of the last record of the reference). " +
 			"byte-built cases: index files assembled by an independent encoder in shapes Add cannot produce (references without bins, no statistics pseudo-bin, no trailing unplaced count, unsorted bins): y=R(x0); W(R(W(y))) == W(y); queries and statistics identical on y and R(W(y)); statistics equal those encoded. " +
+			"parallel cases: 3-4 independent index files decoded at the same time by as many goroutines, from readers that deliver 1-11 bytes per Read and yield before each; W(R(x)) must equal the bytes obtained when each is decoded alone (decoders share no state); repeated under the race detector. " +
 			"Non-trivial: >= 2 references or >= 5 bins; distinct = distinct index contents.",
 		Floor:       map[string]int{"quick": 200, "thorough": 4000},
 		Plan:        c15Plan,
@@ -45,7 +49,136 @@ func c15Plan(seed int64, tier string) []core.Case {
 			cs = append(cs, core.Case{Kind: k + "-bytes", Seed: core.SubSeed(seed, "c15b", kind, i), P: map[string]int64{"geom": int64(i % len(csiGeoms))}})
 		}
 	}
+	// parallel: independent indexes decoded at the same time by several
+	// goroutines, from readers that deliver a few bytes at a time and yield;
+	// each must come out as it does alone. Repeated under the race detector.
+	np := 24
+	if tier == "thorough" {
+		np = 300
+	}
+	for i := 0; i < np; i++ {
+		cs = append(cs, core.Case{Kind: "parallel", Seed: core.SubSeed(seed, "c15p", i), Race: i%2 == 0, P: map[string]int64{"mix": int64(i % 4)}})
+	}
 	return cs
+}
+
+// dribble delivers a few bytes per Read and yields before each.
+type dribble struct {
+	b   []byte
+	pos int
+	x   uint64
+}
+
+func (d *dribble) Read(p []byte) (int, error) {
+	if d.pos >= len(d.b) {
+		return 0, io.EOF
+	}
+	runtime.Gosched()
+	d.x = d.x*6364136223846793005 + 1442695040888963407
+	n := 1 + int(d.x>>33)%11
+	if n > len(p) {
+		n = len(p)
+	}
+	n = copy(p[:n], d.b[d.pos:])
+	d.pos += n
+	return n, nil
+}
+
+func c15ReadWrite(kind string, rd io.Reader) ([]byte, error) {
+	var buf bytes.Buffer
+	switch kind {
+	case "bai":
+		idx, err := bam.ReadIndex(rd)
+		if err != nil {
+			return nil, err
+		}
+		err = bam.WriteIndex(&buf, idx)
+		return buf.Bytes(), err
+	case "tabix":
+		idx, err := tabix.ReadFrom(rd)
+		if err != nil {
+			return nil, err
+		}
+		err = tabix.WriteTo(&buf, idx)
+		return buf.Bytes(), err
+	}
+	idx, err := csi.ReadFrom(rd)
+	if err != nil {
+		return nil, err
+	}
+	err = csi.WriteTo(&buf, idx)
+	return buf.Bytes(), err
+}
+
+func c15Parallel(r *core.Result, c core.Case) {
+	rng := c.Rng()
+	kinds := [][]string{{"bai", "bai", "tabix"}, {"tabix", "bai", "tabix", "bai"}, {"csi", "csi", "csi"}, {"bai", "csi", "tabix", "bai"}}[c.Int("mix")]
+	type job struct {
+		kind string
+		raw  []byte
+		want []byte
+	}
+	var jobs []job
+	for _, k := range kinds {
+		for try := 0; try < 20; try++ {
+			ic, cls, _ := newIdxCase(rng, k, rng.Intn(len(csiGeoms)), false)
+			if cls != "" {
+				continue
+			}
+			x, cls, _ := ic.build(rng)
+			if cls != "" || x == nil {
+				continue
+			}
+			raw, err := x.write()
+			if err != nil || len(raw) < 64 {
+				continue
+			}
+			want, err := c15ReadWrite(k, bytes.NewReader(raw))
+			if err != nil {
+				continue // judged by the sequential cases
+			}
+			// alone, but from a source that returns the last bytes together
+			// with io.EOF, and from one that returns a few bytes at a time
+			for si, src := range []io.Reader{&eagerEOF{b: raw}, &eagerEOF{b: raw, max: 1 + rng.Intn(40)}, &dribble{b: raw, x: rng.Uint64()}} {
+				got, err := c15ReadWrite(k, src)
+				if err != nil || !bytes.Equal(got, want) {
+					r.Violate(k+"|source-dependent", "%s index of %d bytes read from source kind %d: err=%v, same result as from a plain reader: %v", k, len(raw), si, err, bytes.Equal(got, want))
+				}
+			}
+			jobs = append(jobs, job{k, raw, want})
+			break
+		}
+	}
+	r.FP = core.Hash("parallel", c.Seed)
+	r.Sample = map[string]any{"kind": "parallel", "indexes": fmt.Sprint(kinds), "bytes": func() (n []int) {
+		for _, j := range jobs {
+			n = append(n, len(j.raw))
+		}
+		return
+	}()}
+	if len(jobs) < 2 {
+		return
+	}
+	r.Nontrivial = true
+	var wg sync.WaitGroup
+	var mu sync.Mutex
+	for gi, j := range jobs {
+		wg.Add(1)
+		go func(gi int, j job) {
+			defer wg.Done()
+			for rep := 0; rep < 6; rep++ {
+				got, err := c15ReadWrite(j.kind, &dribble{b: j.raw, x: uint64(c.Seed) + uint64(gi*100+rep)})
+				if err != nil || !bytes.Equal(got, j.want) {
+					mu.Lock()
+					r.Violate(j.kind+"|parallel-read-differs", "index %d (%s, %d bytes) decoded while %d other indexes were being decoded: err=%v, rewritten bytes equal to the ones obtained alone: %v", gi, j.kind, len(j.raw), len(jobs)-1, err, bytes.Equal(got, j.want))
+					mu.Unlock()
+					return
+				}
+			}
+		}(gi, j)
+	}
+	wg.Wait()
+	r.Count("parallel_decodes", int64(6*len(jobs)))
 }
 
 func sameStats(a, b anyIndex) string {
@@ -130,6 +263,10 @@ func roundTrip(r *core.Result, desc string, kind string, x anyIndex, qs [][3]int
 func c15Run(c core.Case) *core.Result {
 	r := core.NewResult()
 	rng := c.Rng()
+	if c.Kind == "parallel" {
+		c15Parallel(r, c)
+		return r
+	}
 	if len(c.Kind) > 6 && c.Kind[len(c.Kind)-6:] == "-bytes" {
 		c15Bytes(r, rng, c.Kind[:len(c.Kind)-6], c.Int("geom"))
 		return r
